@@ -44,6 +44,8 @@ def showOptEvent : Option Event → String
 
 def showFault : Fault → String
   | .indexOutOfRange => "panic:index" | .sliceBounds => "panic:slice" | .nilDeref => "panic:nil" | .diverge => "diverge"
+  | .nilMap => "panic:nilmap"
+  | .unsupported why => "panic:unsupported(" ++ why ++ ")"
 
 def argEvent (t s c p : String) : Option Event := do
   let tags ← argTags t
